@@ -1,4 +1,6 @@
 import Nstd.Sha.LemmasHmac
+import Nstd.Sha.LemmasUnroll2
+import Nstd.Sha.ModelU2
 /-
   Property C17: SHA-256 and HMAC-SHA-256 equal the standard for every input and chunking.
 
@@ -66,6 +68,26 @@ theorem transform_ignores_uninitialised_locals (t0 w0 state data : List UInt32) 
     transformFrom t0 w0 state data = (Spec.compress state data, true) :=
   transformFrom_eq_compress t0 w0 state data ht hw hs hd
 
+/-- the second build configuration (`-D_SHA256_UNROLL2`: eight scalar registers, nine-parameter macro `R` with
+permuted arguments, `RX_8(0); RX_8(8);` instead of the `i` loop; generated into `Sha256U2.lean` from the
+current sources) computes exactly what the rolled form computes, for every chaining value, every block and
+every initial content of its uninitialised locals - so every digest theorem below holds for both configurations
+(everything outside `Transform` is the same text in both; the translator checks the tables and macros it shares) -/
+theorem transform_unroll2_eq (data : List UInt32) (st0 : Sha256U2.RS) (hW : st0.W.length = 16)
+    (hs : st0.state.length = 8) (hd : data.length = 16) (hok : st0.ok = true) :
+    ((Sha256U2.Transform data st0).state, (Sha256U2.Transform data st0).ok) = transform st0.state data ∧
+    transformU2 st0.state data = transform st0.state data ∧
+    Sha256U2.K = Sha256.K ∧ Sha256U2.H0 = Sha256.H0 := by
+  have h := transformU2_eq_compress data st0 hW hs hd hok
+  refine ⟨?_, ?_, by decide +kernel, by decide +kernel⟩
+  · rw [transform_eq_compress _ _ hs hd, h.1, h.2]
+  · have h' := transformU2_eq_compress data
+      { W := List.replicate 16 0, state := st0.state, a := 0, b := 0, c := 0, d := 0, e := 0, f := 0, g := 0, h := 0, ok := true }
+      (by simp) hs hd rfl
+    rw [transform_eq_compress _ _ hs hd]
+    unfold transformU2
+    simp only [h'.1, h'.2]
+
 /-- the padded message of the spec is a whole number of 64-byte blocks (so `Spec.hashBlocks`, which
 ignores a trailing partial block, consumes all of it) -/
 theorem spec_pad_is_whole_blocks (m : List UInt8) : (Spec.pad m).length % 64 = 0 := by
@@ -123,6 +145,9 @@ example : ([[0x61], [], [0x62, 0x63]] : List (List UInt8)).flatten.length < 2 ^ 
 example : Reusable (reset (update init [1, 2, 3])) := (reusable_after_finalize_or_reset.2.2.2 init reusable_after_finalize_or_reset.1 [[1, 2, 3]])
 example : (List.replicate 70 (0xaa : UInt8)).length < 2 ^ 61 ∧ ([0x61] : List UInt8).length + 64 < 2 ^ 61 := by decide
 example : Sha256.H0.length = 8 ∧ (data32 (List.replicate 64 0)).length = 16 := by decide
+example : ∃ st0 : Sha256U2.RS, st0.W.length = 16 ∧ st0.state.length = 8 ∧ st0.ok = true ∧ st0.a = 7 :=
+  ⟨{ W := List.replicate 16 5, state := Sha256.H0, a := 7, b := 1, c := 2, d := 3, e := 4, f := 5, g := 6, h := 9, ok := true },
+   by decide, by decide, rfl, rfl⟩
 
 /-! ### tests of the transcription of the standard (kernel evaluation of `Spec` on the classic vectors;
 the compiled driver additionally compares `Spec.sha256` / `Spec.hmacSha256` with Python hashlib/hmac on every run) -/
